@@ -188,6 +188,117 @@ def gen_run(tier, mod):
                      'show': {'queue': list(q), 'requires': rq, 'counts': counts, 'repetitions': rep,
                               'complete': list(done)}}
 
+
+# ---- SortActions: loop invariants (R = result, A = actions_to_assign, C = complete) ------------------------
+ISAT = "(a not in self.action_iteration or self.iteration_actions[self.action_iteration[a]][0] == a)"
+W_COMMON = [
+    # what is in the result is complete, no longer to assign, and a configured action
+    "all(result[i] in complete and result[i] not in actions_to_assign and result[i] in all_names() "
+    "for i in range(len(result)))",
+    # everything complete is in the result
+    "all(any(result[j] == x for j in range(len(result))) for x in complete)",
+    "all(all(implies(i != j, result[i] != result[j]) for j in range(len(result))) for i in range(len(result)))",
+    # every prerequisite of result[k] is an iteration mate or stands before k
+    "all(all(mate(r, result[k]) or any(result[j] == r for j in range(k)) "
+    "for r in self.action_requires[result[k]]) for k in range(len(result)))",
+    "all(x in all_names() for x in actions_to_assign)",
+    "all(isat(x) for x in atamans)",
+]
+# while an iteration is being assigned: every member still to assign is ready -- each of its prerequisites is an
+# iteration mate or already in the result (established when the first action of the iteration is appended, from
+# the well-formedness precondition; used when the block of remaining members is appended)
+W_LINK = ("implies(assigning_iteration is not None, assigning_iteration in self.iteration_actions and "
+          "all(implies(self.iteration_actions[assigning_iteration][p] in actions_to_assign, "
+          "all(mate(r, self.iteration_actions[assigning_iteration][p]) or "
+          "any(result[j] == r for j in range(len(result))) "
+          "for r in self.action_requires[self.iteration_actions[assigning_iteration][p]])) "
+          "for p in range(len(self.iteration_actions[assigning_iteration]))))")
+SORT_LOOPS = {
+    0: {'inv': ["all(isat(atamans[i]) for i in range(len(atamans)))"]},
+    # `focus`: the assumptions an obligation is given (invariant (loop, index) pairs and precondition indices);
+    # leaving hypotheses out is sound, and keeps the existential clauses decidable for the solver
+    1: {'inv': W_COMMON + [W_LINK, "not exit_for"],
+        'focus': {1: {'inv': [(1, 1), (2, 1), (2, 6), (2, 7)], 'req': []},
+                  3: {'inv': [(1, 3), (1, 6), (1, 0), (1, 4), (2, 3), (2, 1), (2, 6), (2, 7)], 'req': [0, 3, 4]},
+                  6: {'inv': [(1, 6), (1, 0), (1, 4), (2, 0), (2, 1), (2, 4), (2, 5), (2, 6), (2, 7), (2, 8)],
+                      'req': [0, 1, 3, 4]}}},
+    2: {'focus': {1: {'inv': [(2, 1)], 'req': []}},
+        'inv': W_COMMON + ["assigning_iteration is None", "not exit_for",
+                           "all(eligible[j] in actions_to_assign and eligible[j] in atamans "
+                           "for j in range(_i2, len(eligible)))"]},
+}
+
+
+SORT_REQUIRES = [
+           # iteration tables agree (UnderstandIterations): members know their iteration, lists are non-empty
+           # and without repetition
+           "all(all(m in self.action_iteration and self.action_iteration[m] == it "
+           "for m in self.iteration_actions[it]) for it in self.iteration_actions)",
+           "all(self.action_iteration[a] in self.iteration_actions and "
+           "len(self.iteration_actions[self.action_iteration[a]]) > 0 for a in self.action_iteration)",
+           "all(all(all(implies(i != j, self.iteration_actions[it][i] != self.iteration_actions[it][j]) "
+           "for j in range(len(self.iteration_actions[it]))) for i in range(len(self.iteration_actions[it]))) "
+           "for it in self.iteration_actions)",
+           # well-formed plan: a later member of an iteration requires only iteration mates and what the first requires
+           "all(implies(a in self.action_requires and head(a) != a, "
+           "all(mate(r, a) or r in self.action_requires[head(a)] for r in self.action_requires[a])) "
+           "for a in self.action_iteration)",
+           "all(a in self.action_requires for a in all_names())",
+           "'' not in self.iteration_actions"]
+SORT_ENSURES = [
+           "all(all(implies(i != j, result[i] != result[j]) for j in range(len(result))) for i in range(len(result)))",
+           "all(all(mate(r, result[k]) or any(result[j] == r for j in range(k)) "
+           "for r in self.action_requires[result[k]]) for k in range(len(result)))",
+           "all(result[k] in all_names() for k in range(len(result)))"]
+
+
+def gen_sort(tier, mod):
+  """Every requirement map over up to four actions (each action requires any subset of the others: cyclic maps end
+  in the "could not schedule" assertion, which the contract allows), with no iteration, an iteration of the first
+  two actions, of the first three, and two iterations of two; preconditions filter the well-formed plans."""
+  import itertools
+  names = ['A', 'B', 'C', 'D']
+  nmax = 3 if tier == 'quick' else 4
+  for n in range(1, nmax + 1):
+    ns = names[:n]
+    subsets = [[x for k, x in enumerate(ns) if m >> k & 1] for m in range(1 << n)]
+    itss = [{}] + ([{'it1': ns[:2]}, {'it1': list(reversed(ns[:2]))}] if n >= 2 else []) + \
+        ([{'it1': ns[:3]}, {'it1': [ns[1], ns[0], ns[2]]}] if n >= 3 else []) + ([{'it1': ns[:2], 'it2': ns[2:4]}] if n >= 4 else [])
+    for reqs in itertools.product(subsets, repeat=n):
+      req = {a: set(r) - {a} for a, r in zip(ns, reqs)}
+      for its in itss:
+        c = mk.concertina(mod)
+        c.config = [{'name': a, 'requires': sorted(req[a])} for a in ns]
+        c.action = {a['name']: a for a in c.config}
+        c.iteration_actions = {k: list(v) for k, v in its.items()}
+        c.action_iteration = {a: k for k, v in its.items() for a in v}
+        c.action_requires = {a: set(r) for a, r in req.items()}
+        def has_cycle(req=req, its=its):
+          # requirement cycle after merging each iteration into one node (and dropping requirements inside it)
+          node = {a: a for a in req}
+          for k_, v_ in its.items():
+            for a in v_:
+              node[a] = k_
+          g = {}
+          for a, r in req.items():
+            g.setdefault(node[a], set()).update(node[x] for x in r if x in node and node[x] != node[a])
+          seen, done = set(), set()
+
+          def dfs(v):
+            if v in done:
+              return False
+            if v in seen:
+              return True
+            seen.add(v)
+            cyc = any(dfs(w) for w in g.get(v, ()))
+            done.add(v)
+            return cyc
+          # the first action of an iteration waits for everything it requires, members of its iteration included
+          head_waits = any(set(req[v_[0]]) & set(v_) for v_ in its.values() if v_ and v_[0] in req)
+          return head_waits or any(dfs(v) for v in list(g))
+        yield {'args': [], 'self': c, 'env': {'all_names': (lambda ns=ns: set(ns)), 'has_cycle': has_cycle},
+               'show': {'actions': ns, 'requires': {a: sorted(r) for a, r in req.items()}, 'iterations': its}}
+
 UNITS = [
   unit(F, 'Concertina.ActionIterationWantsToStopBySignal', external=True,
        params=['action'], types={'action': 'str'}, fields=FIELDS, returns='bool',
@@ -311,4 +422,45 @@ UNITS = [
                                    "old(self.actions_to_run)[k] in self.g_inq "
                                    "for k in range(len(old(self.actions_to_run))))"]}},
        native=gen_run),
+  # SortActions establishes the queue invariant Run starts from (C = {}): no action twice, and every prerequisite
+  # of the action at position k is a member of the same iteration or stands before k.  For the members an
+  # iteration appends after its first action ("ataman") this needs the plan to be well formed: such a member
+  # requires nothing beyond its iteration and what the first action requires (UnderstandIterations gives every
+  # member of a half-iteration the external requirements of that half; see DESIGN 9.3 on lower-half externals).
+  unit(F, 'Concertina.SortActions', props=['C14'], params=[], returns='list[str]',
+       fields={'self.action_iteration': 'dict[str,str]', 'self.iteration_actions': 'dict[str,list[str]]',
+               'self.action_requires': 'dict[str,set[str]]'},
+       modifies=[], asserts='diagnostic', may_raise={'AssertionError': 'True'},
+       # "could not schedule" is a diagnostic for plans with a requirement cycle (iterations taken as one node) or whose
+       # first action of an iteration requires a member of that iteration; every other plan is scheduled
+       native_may_raise={'AssertionError': 'has_cycle()'}, concat_axioms=True, set_axioms=True,
+       abstract_exprs={"{a['name'] for a in self.config}": ('all_names', [], 'set[str]')},
+       ufs={'all_names': ([], 'set[str]')},
+       spec_funcs={'mate': (['a', 'b'], MATE), 'isat': (['a'], ISAT),
+                   'head': (['a'], "self.iteration_actions[self.action_iteration[a]][0]")},
+       locals={'atamans': 'list[str]', 'complete': 'set[str]', 'result': 'list[str]',
+               'assigning_iteration': 'opt[str]', 'eligible': 'list[str]', 'actions_to_assign': 'set[str]'},
+       requires=SORT_REQUIRES,
+       ensures=SORT_ENSURES,
+       loops=SORT_LOOPS,
+       native=gen_sort),
+
+  # the part of __init__ that builds the scheduler state: after it the precondition of Run holds (with nothing
+  # complete).  The tables UnderstandIterations builds are the precondition here (not verified: dict comprehensions
+  # over the nested config are outside the subset); `typed` is the one fact about them Run needs beyond SortActions'.
+  unit(F, 'Concertina.__init__', name='Concertina.__init__[queue]', props=['C14'], params=['engine'], types={'engine': 'str'},
+       slice=('self.actions_to_run = self.SortActions()', 'self.running_actions = set()'),
+       fields=dict(RUN_FIELDS, **{'self.iteration_actions': 'dict[str,list[str]]', 'self.engine': 'str',
+                                  'self.all_actions': 'set[str]'}),
+       modifies=['self.actions_to_run', 'self.engine', 'self.all_actions', 'self.complete_actions', 'self.running_actions'],
+       asserts='diagnostic', may_raise={'AssertionError': 'True'}, cls='Concertina',
+       abstract_exprs={"{a['name'] for a in self.config}": ('all_names', [], 'set[str]'),
+                       "len(self.action) == len(self.config)": ('names_unique', [], 'bool')},
+       ufs={'all_names': ([], 'set[str]'), 'names_unique': ([], 'bool')},
+       spec_funcs={'mate': (['a', 'b'], MATE), 'isat': (['a'], ISAT),
+                   'head': (['a'], "self.iteration_actions[self.action_iteration[a]][0]")},
+       requires=SORT_REQUIRES + [
+           "all(implies(a in self.action_iterations_complete, a in self.action_iteration and "
+           "self.action_iteration[a] in self.iteration_repetitions) for a in all_names())"],
+       ensures=INVS + ["self.all_actions == all_names()"]),
 ]
